@@ -28,7 +28,7 @@ LEVEL = "exploration"
 RUNS = {"quick": 40000, "thorough": 1000000}
 WALL = {"quick": 240, "thorough": 1500}
 PARTITIONS = [{"name": "default", "env": {}}]
-FAULT_KINDS = ["masked_array_assigned", "bulk_batch", "lossy_conversion_probe", "narrowing_probe", "mixed_dtype_arith", "float_weight_into_int",
+FAULT_KINDS = ["projection_beyond_source_dtype", "masked_array_assigned", "bulk_batch", "lossy_conversion_probe", "narrowing_probe", "mixed_dtype_arith", "float_weight_into_int",
                "int_float_subtraction", "refused_int_with_float_weights", "dtype_setter"]
 RULE = ("one run = 1-3 live histograms (1-2 D) created with dtypes drawn from all seven supported types, then a "
         "seeded history (<= 12) of fill / fill_n (int, float weights) / + / - / * / / / normalize / merge_bins / "
@@ -125,6 +125,11 @@ def generate(rng, seed, part):
         else:
             ops.append({"op": "set_dtype", "a": a, "to": rng.choice(ALL_DTYPES), "via": rng.choice(["method", "setter"]),
                         "prep": rng.choice([None, None, "fraction", "big", "huge"])})
+    if rng.random() < 0.15:
+        # a projection adds up many bins: its sums may need a wider type than each bin of the source does
+        ops.append({"op": "projection_sums", "a": 0, "klass": rng.choice(["h2", "polar", "cylindrical", "spherical"]),
+                    # (integers: numpy's sums widen to int64; a float16 sum beyond 65504 is simply out of range)
+                    "dtype": rng.choice(["int16", "int32"]), "axis": rng.randrange(3)})
     if bulk_tier(rng):
         # one batch of thousands of rows somewhere in the history (size-dependent paths of fill_n)
         ops.insert(rng.randint(k, len(ops)),
@@ -426,6 +431,48 @@ def execute(plan, ctx):
             if not np.allclose(got, np.asarray(np.ma.getdata(vals), dtype=np.float64), rtol=1e-6, atol=0):
                 ctx.violation("C13/no-truncation", f"C13/assignment-truncated/{op['what']}/{pre_dtype}",
                               f"h.{op['what']} = {np.asarray(vals).tolist()} on dtype {pre_dtype} stored {got.tolist()}")
+        elif o == "projection_sums":
+            from physt import special_histograms as sp
+            from physt.binnings import StaticBinning
+            from physt.histogram_nd import Histogram2D
+
+            big = {"int16": 17500, "int32": 600_000_000, "float16": 30000}[op["dtype"]]
+            klass = op["klass"]
+            r_b = StaticBinning(np.array([0.0, 1.0, 2.0]))
+            phi_b = StaticBinning(np.linspace(0, 2 * np.pi, 5))
+            if klass in ("h2", "polar"):
+                K = Histogram2D if klass == "h2" else sp.PolarHistogram
+                f = np.array([[big] * 4, [100] * 4], dtype=np.int64)
+                src = K([r_b, phi_b], frequencies=f)
+            else:
+                K = sp.CylindricalHistogram if klass == "cylindrical" else sp.SphericalHistogram
+                third = StaticBinning(np.array([-1.0, 0.0, 1.0])) if klass == "cylindrical" else \
+                    StaticBinning(np.linspace(0, np.pi, 3))
+                f = np.zeros((2, 4, 2), dtype=np.int64) if klass == "cylindrical" else np.zeros((2, 2, 4), dtype=np.int64)
+                f[0] = big
+                f[1] = 100
+                src = K([r_b, phi_b, third] if klass == "cylindrical" else [r_b, third, phi_b], frequencies=f)
+            ok, res = attempt(src.set_dtype, np.dtype(op["dtype"]))
+            if not ok:
+                ctx.probe("projection_sums_setup_refused")
+                continue
+            ax = op["axis"] % src.ndim
+            ok, proj = attempt(src.projection, ax)
+            ctx.ev("n", f"projection_sums:{klass}:{op['dtype']}", ax, "ok" if ok else exc_tag(proj))
+            ctx.abstract("projection_sums", klass, op["dtype"], ax, ok)
+            ctx.fault("projection_beyond_source_dtype")
+            if not ok:
+                ctx.violation("C13/no-truncation", f"C13/projection-raised/{klass}/{op['dtype']}/{exc_tag(proj)}",
+                              f"projection({ax}) of a {K.__name__} with dtype {op['dtype']} (every bin within range) "
+                              f"raised {proj!r}")
+            consistent(ctx, proj, f"projection-{klass}")
+            want = np.asarray(f, dtype=np.float64).sum(axis=tuple(a_ for a_ in range(src.ndim) if a_ != ax))
+            got = np.asarray(proj.frequencies, dtype=np.float64)
+            tol = 0.0 if op["dtype"] != "float16" else float(want.max()) * 2e-3
+            if got.shape != want.shape or np.any(np.abs(got - want) > tol):
+                ctx.violation("C13/no-truncation", f"C13/projection-truncated/{klass}/{op['dtype']}",
+                              f"projection({ax}) of a {K.__name__} with dtype {op['dtype']}: contents {got.tolist()} "
+                              f"(dtype {proj.dtype}), the marginal sums are {want.tolist()}")
         elif o == "accumulate":
             if ndim < 2:
                 continue
